@@ -24,7 +24,10 @@ MANIFEST = {
             "same addresses and refuse the private spend key; extracted model vs implementation on seeds of every "
             "length 0..64, boundary scalars, boundary indices, payment ids and malformed addresses.",
     "note": "Keccak-256 and the ed25519 group are oracles (pycryptodome, own affine arithmetic); libsodium's error "
-            "cases (zero scalar, identity result, refused points) are modelled as observed.",
+            "cases (zero scalar, identity result, refused points) are modelled as observed. LINKED: this property's block-Base58 "
+            "model (Model/XmrB58.v) and the C10/C11 one (Model/Base58Xmr.v) are proved equal on every input, the C10/C11 "
+            "acceptance / canonicity / error-class theorems are transported to the address model's codec, and both extracted "
+            "models are run on the same inputs against the implementation and against each other.",
     "technique": "Coq proof + generated-constant obligations + extracted-model differential run + direct "
                  "recomputation from the published scheme",
     "ref": "7/C16",
@@ -474,3 +477,60 @@ def generate(ctx):
     ctx.run("xmr_addr_decode", [ref_b58x(b"\x12" + keccak256(b"\x12")[:4]), b"\x12", None], "net-only")
     ctx.note_exhaustive("seed lengths 0..64 (one seed each); block Base58 of every 1-byte string and all-zero / "
                         "all-0xff strings of length 0..19")
+    gen_link(ctx)
+
+
+# ------------------------------------------------------------------ linked models
+# Props/C16.v xmr_b58_models_agree: Model/XmrB58.v (this property's codec, group cardmon) and Model/Base58Xmr.v (the
+# C10/C11 codec, group codecs) are one function.  Both extracted models are run on the same inputs against the
+# implementation, and against each other (the direct check compares the two MODELS, so a divergence between them
+# would be reported even where the implementation agrees with neither).
+
+def _both_models(entry_a, entry_b):
+    def chk(a):
+        m = _CTX[0].m if _CTX else None
+        if m is None:
+            return None
+        ra, rb_ = m.call(entry_a, a[0]), m.call(entry_b, a[0])
+        return None if ra == rb_ else "the two block-Base58 models differ: %r vs %r" % (ra, rb_)
+    return chk
+
+
+_CTX = []
+FUNCS["xmrb58_encode_c11"] = Func(model=lambda m, a: m.call("codecs.xmr_encode", a[0]),
+                                  impl=lambda a: Base58XmrEncoder.Encode(a[0]),
+                                  direct=_both_models("cardmon.xmrb58_encode", "codecs.xmr_encode"))
+FUNCS["xmrb58_decode_c11"] = Func(model=lambda m, a: m.call("codecs.xmr_decode", a[0]),
+                                  impl=lambda a: Base58XmrDecoder.Decode(a[0]),
+                                  direct=_both_models("cardmon.xmrb58_decode", "codecs.xmr_decode"))
+
+
+def gen_link(ctx):
+    rng = ctx.rng
+    _CTX[:] = [ctx]
+    valid = []
+    for n in list(range(0, 20)) + [23, 24, 25, 64, 65, 69, 72, 73, 77]:
+        for b in (bytes(n), b"\xff" * n, rb(rng, n), bytes(rng.randrange(n + 1)) + rb(rng, n)[:max(0, n - 3)]):
+            r = ctx.run("xmrb58_encode_c11", [b], "link", trivial=(len(b) == 0))
+            if r[1] and r[1][0] == "ok":
+                valid.append(r[1][1])
+    for s in valid:
+        ctx.run("xmrb58_decode_c11", [s], "link-valid", trivial=(s == ""))
+    for _ in range(ctx.n(150, 3000)):
+        s = rng.choice(valid) or "11"
+        t = list(s)
+        k = rng.randrange(6)
+        if k == 0:
+            t[rng.randrange(len(t))] = rng.choice(B58)
+        elif k == 1:
+            t[rng.randrange(len(t))] = rng.choice("0OIl zZ")
+        elif k == 2:
+            t = t[:rng.randrange(len(t))]
+        elif k == 3:
+            t.insert(rng.randrange(len(t) + 1), rng.choice(B58))
+        elif k == 4:
+            j = (rng.randrange(len(t)) // 11) * 11               # overflow a whole block: value >= 2^64
+            t[j:j + 11] = list("z" * min(11, len(t) - j))
+        else:
+            t = t + list("1" * rng.randrange(1, 12))
+        ctx.run("xmrb58_decode_c11", ["".join(t)], "link-mutated")
